@@ -112,6 +112,13 @@ func (c *sconn) serve() {
 		if err != nil {
 			return
 		}
+		if f.Flags&0x01 != 0 {
+			// the driver negotiated compression (snappy is the only one these peers ever agree to)
+			if b, derr := (gocql.SnappyCompressor{}).Decode(f.Body); derr == nil {
+				f.Body = b
+				f.Flags &^= 0x01
+			}
+		}
 		c.s.mu.Lock()
 		c.seen[f.Op]++
 		ov := c.s.override
